@@ -9,6 +9,9 @@ pub mod receiver;
 pub mod schedule;
 mod sender;
 pub mod stateless_reset;
+#[cfg(aws_s2n_quic_verif)]
+#[doc(hidden)]
+pub mod verif_hooks;
 
 pub use key::{open, seal};
 pub use map::Map;
